@@ -504,7 +504,8 @@ static int disasm_xtensa_le(
 
   snprintf(instruction, length, "???");
 
-  return 1;
+  // Bit 3 of op0 tells 16 bit (narrow) from 24 bit instructions.
+  return (opcode & 0x8) != 0 ? 2 : 3;
 }
 
 static int disasm_xtensa_be(
@@ -995,7 +996,8 @@ static int disasm_xtensa_be(
 
   snprintf(instruction, length, "???");
 
-  return 1;
+  // Bit 3 of op0 tells 16 bit (narrow) from 24 bit instructions.
+  return (opcode & 0x800000) != 0 ? 2 : 3;
 }
 
 int disasm_xtensa(
